@@ -12,15 +12,16 @@ from tools.vlib import Outcome
 from tools.props import c11_gen as G
 
 MANIFEST = {
-    "level_text": "Coq theorems (Properties/C11.v, no axioms) about a function-by-function Gallina transcription of validator_parser.rs (substring scanners over tokens.to_string(), the character-index/byte-index message slice with its panic, the five-step replace chain) and of schema_builder.rs (render_type, apply_*, escape_js_string): escape_js_string followed by JavaScript string-literal reading is the identity for every byte string; every parsed ValidatorAttributes value is rendered to a chain that reads back as exactly those constraints; on every list of attributes built from email/url flags around one length/range validator (any argument order, plain message bodies) the attribute loop returns exactly the fold of the declared components (C11_loop_exact_partial, C11_later_attrs_only_add), the replace chain is exact on literals with the five supported escapes (C11_unescape_exact_partial) and array elements never carry validators (all element types); fields without #[validate] get the bare schema; a field's chain depends on its own attributes only; the boolean oracle is proved equivalent to its Prop statement; one refutation lemma with a computed witness per remaining known-finding class (seven), and positive statements on the witnesses of the two repaired ones (C11-5 multi-byte messages, C11-7 Option below Vec). The model is tied to /repo on every run by differential execution on generated structs (token strings, ValidatorAttributes, chains), and the extracted oracle (declared meta tree vs constraints read back from the emitted chain, exact decimal comparison, JS string decoding) is applied to the implementation's output.",
+    "level_text": "Coq theorems (Properties/C11.v, no axioms) about a function-by-function Gallina transcription of validator_parser.rs (substring scanners over tokens.to_string(), the character-index/byte-index message slice with its panic, the five-step replace chain) and of schema_builder.rs (render_type, apply_*, escape_js_string): escape_js_string followed by JavaScript string-literal reading is the identity for every byte string; every parsed ValidatorAttributes value is rendered to a chain that reads back as exactly those constraints; on every list of attributes built from email/url flags around one length/range validator (any argument order, plain message bodies) the attribute loop returns exactly the fold of the declared components (C11_loop_exact_partial, C11_later_attrs_only_add), the replace chain is exact on literals with the five supported escapes (C11_unescape_exact_partial) and array elements never carry validators (all element types); fields without #[validate] get the bare schema; a field's chain depends on its own attributes only; the boolean oracle is proved equivalent to its Prop statement; one refutation lemma with a computed witness per remaining known-finding class (eight), and positive statements on the witnesses of the two repaired ones (C11-5 multi-byte messages, C11-7 Option below Vec). The model is tied to /repo on every run by differential execution on generated structs (token strings, ValidatorAttributes, chains), and the extracted oracle (declared meta tree vs constraints read back from the emitted chain, exact decimal comparison, JS string decoding) is applied to the implementation's output.",
     "design_ref": "DESIGN.md section 5 C11",
-    "level_note": "Partial. Proved for all inputs: C11_escape_roundtrip (every byte string); C11_exact_render_partial (every ValidatorAttributes value with number-text bounds, any number of Option wrappers, string / number / array-of-string fields: the chain reads back as exactly its constraints); C11_array_elements_bare (EVERY element type: a Vec field's chain is z.array(<bare element schema>) + length methods) with C11_exact_render_arrays_partial (read back for number, boolean, Option<number>, Vec<String>, Vec<Option<number>> elements); C11_none; C11_not_misattached; C11_oracle_exact (boolean oracle <-> Prop C11_holds). Scanning half (dispf = f64 parse+print stays a Section variable throughout): C11_exact_scan_partial - one length(..)/range(..) validator with any subset of min, max, message in ANY of the six orders, bounds any number texts, message a plain double-quoted body (any bytes incl. multi-byte, no double quote / backslash / closing parenthesis / validator keyword): the scanners return exactly the declared components; C11_loop_exact_partial - ANY list of attributes in any order, each #[validate(flags.., length|range(..), flags..)] (flags = any number of email / url before and after), #[validate(flags..)], #[validate()], #[validate] or a non-validate attribute: parse_validator_attributes does not panic and equals the left fold of the per-attribute effects, Some iff a validate attribute is present; C11_later_attrs_only_add - attributes that declare no length (range) leave the length (range) parsed so far untouched and flags stay set (the loop the seeds C11-1 / C11-4 break); C11_unescape_exact_partial + C11_message_escapes_partial - message literals with escapes backslash + double quote / single quote / n / t / backslash (an escaped backslash not directly before a plain n, t, single quote): the five-step replace chain computes exactly the literal's value and parse_message returns it wherever the literal stands; C11_exact_canon_partial composes scanning and rendering for String / numeric / Vec<String> fields. NOT proved (kept in Definition C11_exact_full_statement, enforced at run time on every generated case outside the seven classes): the escape sub-language is proved for parse_message alone and is not yet threaded through the keyword-absence lemmas of the loop theorem (its messages are the plain bodies); other validators (custom(..), must_match(..), required ..) beside length/range in the theorem's attribute grammar; email(message = ..) forms (class C11-8); the link from printed bound text to the declared decimal value (u64 Display: dec_of_text (show_N n); f64: the dispf Section variable); read-back of arrays with arbitrary element types (the text-level statement C11_array_elements_bare is general; the reader needs a fuel-monotonicity induction over read_schema that was not done). Seven C11_kf*_refuted witnesses, two C11_fixed*_ok, C11_classes_separate. f64 parse/Display is hand-written OCaml in the runner (compared with the harness on every case). Trusted: syn/proc_macro2 printing (token strings compared on every case), python Rust-source printer (literal values cross-checked against syn::LitStr::value), the Zod/ECMAScript reading in Spec/C11Spec.v, ASCII-only trim().",
+    "level_note": "Partial. Proved for all inputs: C11_escape_roundtrip (every byte string); C11_exact_render_partial (every ValidatorAttributes value with number-text bounds, any number of Option wrappers, string / number / array-of-string fields: the chain reads back as exactly its constraints); C11_array_elements_bare (EVERY element type: a Vec field's chain is z.array(<bare element schema>) + length methods) with C11_exact_render_arrays_partial (read back for number, boolean, Option<number>, Vec<String>, Vec<Option<number>> elements); C11_none; C11_not_misattached; C11_oracle_exact (boolean oracle <-> Prop C11_holds). Scanning half (dispf = f64 parse+print stays a Section variable throughout): C11_exact_scan_partial - one length(..)/range(..) validator with any subset of min, max, message in ANY of the six orders, bounds any number texts, message a plain double-quoted body (any bytes incl. multi-byte, no double quote / backslash / closing parenthesis / validator keyword): the scanners return exactly the declared components; C11_loop_exact_partial - ANY list of attributes in any order, each #[validate(flags.., length|range(..), flags..)] (flags = any number of email / url before and after), #[validate(flags..)], #[validate()], #[validate] or a non-validate attribute: parse_validator_attributes does not panic and equals the left fold of the per-attribute effects, Some iff a validate attribute is present; C11_later_attrs_only_add - attributes that declare no length (range) leave the length (range) parsed so far untouched and flags stay set (the loop the seeds C11-1 / C11-4 break); C11_unescape_exact_partial + C11_message_escapes_partial - message literals with escapes backslash + double quote / single quote / n / t / backslash (an escaped backslash not directly before a plain n, t, single quote): the five-step replace chain computes exactly the literal's value and parse_message returns it wherever the literal stands; C11_exact_canon_partial composes scanning and rendering for String / numeric / Vec<String> fields. NOT proved (kept in Definition C11_exact_full_statement, enforced at run time on every generated case outside the eight classes): the escape sub-language is proved for parse_message alone and is not yet threaded through the keyword-absence lemmas of the loop theorem (its messages are the plain bodies); other validators (custom(..), must_match(..), required ..) beside length/range in the theorem's attribute grammar; email(message = ..) forms (class C11-8); the link from printed bound text to the declared decimal value (u64 Display: dec_of_text (show_N n); f64: the dispf Section variable); read-back of arrays with arbitrary element types (the text-level statement C11_array_elements_bare is general; the reader needs a fuel-monotonicity induction over read_schema that was not done). Eight C11_kf*_refuted witnesses (C11-10 length(equal = n) dropped, added with the argument-order stream), two C11_fixed*_ok, C11_classes_separate. f64 parse/Display is hand-written OCaml in the runner (compared with the harness on every case). Trusted: syn/proc_macro2 printing (token strings compared on every case), python Rust-source printer (literal values cross-checked against syn::LitStr::value), the Zod/ECMAScript reading in Spec/C11Spec.v, ASCII-only trim().",
     "technique": "Rocq/Coq proof over hand-written model + correspondence check (extracted OCaml vs Rust harness and real CLI)"
 }
 
 RULE = ("corpus: every known-finding witness and regression case; exhaustive: every subset/order of length{min,max,message} x email x url "
         "on String/Option<String>, range subsets on numbers, length subsets on Vec shapes, one attribute or one per validator; "
-        "offsets: a 2-, 3-, 4-byte character at every offset of ASCII messages up to 4 (quick) / 8 (thorough) characters; "
+        "orders: every argument order (message / code first, bounds after) x messages made of key-like words (equal, code, required, "
+        "digits, = and ,) for length and range on String/Vec/Option fields; offsets: a 2-, 3-, 4-byte character at every offset of ASCII messages up to 4 (quick) / 8 (thorough) characters; "
         "clean: random structs of 1-5 fields outside every known class (multi-byte messages and Option-below-Vec types included since their repair); "
         "wild: random structs with trigger-bearing messages, negative/large bounds, raw/rich literals, other validators; cli: the real binary in Zod mode on generated projects. "
         "A struct is non-trivial when at least one field carries #[validate(...)]; distinct = distinct structs")
@@ -33,9 +34,9 @@ ASSUMPTIONS = ["in-domain fields carry at most one length/range/email/url valida
                "char::is_whitespace beyond ASCII is not modelled in trim()/trim_start()"]
 
 # the order of Spec/C11Spec.v kf_flags (C11-5 and C11-7 were repaired and have no class any more)
-KF_IDS = ["C11-1", "C11-2", "C11-3", "C11-4", "C11-6", "C11-8", "C11-9"]
+KF_IDS = ["C11-1", "C11-2", "C11-3", "C11-4", "C11-6", "C11-8", "C11-9", "C11-10"]
 # when several triggers are present the earliest pipeline stage is named
-KF_PRIORITY = [1, 4, 0, 6, 2, 3, 5]
+KF_PRIORITY = [1, 4, 0, 6, 7, 2, 3, 5]
 
 
 def corpus_cases():
@@ -249,6 +250,8 @@ def run(rep):
     ex = G.exhaustive_structs()
     rep.add("exhaustive", evaluate(ex))
     rep.add("offsets", evaluate(G.offset_structs(rep.tier)))
+    orders = G.order_structs(rep.tier)
+    rep.add("orders", evaluate(orders))
     n_clean, n_wild = (8000, 3000) if quick else (60000, 25000)
     clean = [G.gen_struct(rng, False) for _ in range(n_clean)]
     rep.add("clean", evaluate(clean))
@@ -256,7 +259,7 @@ def run(rep):
     rep.add("wild", evaluate(wild))
     # the real binary: the exhaustive structs, a sample of clean ones and ASCII-only wild ones
     n_cli = 300 if quick else 2000
-    cli = ex + clean[:n_cli] + [s for s in wild if no_panic_struct(s)][:n_cli]
+    cli = ex + orders[:60] + clean[:n_cli] + [s for s in wild if no_panic_struct(s)][:n_cli]
     rep.add("cli", evaluate_cli(cli))
     nf = lambda ss: sum(len(s["fields"]) for s in ss)
     rep.extra["distribution"] = {
